@@ -12,13 +12,14 @@ Definition repo_fmt : fmt := {|
   tr_key := g_tr_key; tr_attr_w := g_tr_attr_w; tr_attr_r := g_tr_attr_r;
   tr_none_w := g_tr_none_w; tr_none_r := g_tr_none_r; tr_sel := g_tr_sel;
   tr_time_w := g_tr_time_w; tr_time_r := g_tr_time_r; tr_time_drop := g_tr_time_drop;
-  tr_time_first := g_tr_time_first;
+  tr_time_first := g_tr_time_first; tr_layout_guard := g_tr_layout_guard;
   etc_prefix := g_etc_prefix; etc_width := g_etc_width;
   etc_time_w := g_etc_time_w; etc_time_r := g_etc_time_r; etc_sorted := g_etc_sorted;
   tl_prefix := g_tl_prefix; tl_width := g_tl_width; tl_sorted := g_tl_sorted
 |}.
 
-(* written and read attribute names / markers / column names agree, no name collisions *)
+(* written and read attribute names / markers / column names agree, no name collisions, and
+   DropletTrack.data rejects members whose dtype differs from that of the first member *)
 Lemma repo_fmt_ok : fmt_ok repo_fmt = true.
 Proof. vm_compute. reflexivity. Qed.
 
@@ -97,15 +98,15 @@ Proof.
 Qed.
 
 Lemma dec_enc_track_gen fm l ds :
-  fmt_ok fm = true -> valid_track l = true -> no_bcast l = true ->
+  fmt_ok fm = true -> valid_track l = true ->
   enc_track fm l = Ok ds -> dec_track fm ds = Ok (rho_track l) /\ float_times l (rho_track l).
 Proof.
-  intros Hfm Hv Hnb Henc. destruct (dec_enc_track_core fm l ds Hfm Hv Hnb Henc) as (l' & Hdec & Hft).
+  intros Hfm Hv Henc. destruct (dec_enc_track_core fm l ds Hfm Hv Henc) as (l' & Hdec & Hft).
   pose proof (float_times_fun _ _ Hft) as ->. auto.
 Qed.
 
 Definition valid_tracklist (x : tracklist) : bool :=
-  forallb (fun l => valid_track l && no_bcast l && times_exact l) x.
+  forallb (fun l => valid_track l && times_exact l) x.
 
 Lemma dec_enc_tracklist_gen fm x f :
   fmt_ok fm = true -> valid_tracklist x = true -> Z.of_nat (List.length x) <= 10 ^ tl_width fm ->
@@ -113,20 +114,20 @@ Lemma dec_enc_tracklist_gen fm x f :
 Proof.
   intros Hfm Hv Hlen Henc. pose proof (fmt_ok_facts fm Hfm) as Hff.
   unfold valid_tracklist in Hv. rewrite forallb_forall in Hv.
-  assert (Hv' : forall l, In l x -> valid_track l = true /\ no_bcast l = true /\ times_exact l = true).
+  assert (Hv' : forall l, In l x -> valid_track l = true /\ times_exact l = true).
   { intros l Hl. specialize (Hv l Hl). rewrite !andb_true_iff in Hv. tauto. }
   unfold enc_tracklist in Henc. apply bind_ok in Henc as (wr & Hwr & Henc). injection Henc as <-.
   destruct (keyed_roundtrip (enc_track fm) (dec_track fm) rho_track (tl_prefix fm) (tl_width fm)
               (tl_sorted fm) x wr (ff_tl_w fm Hff) Hlen) as [Hst Hdec]; [|exact Hwr|].
-  - intros l ds Hin He. destruct (Hv' l Hin) as (H1 & H2 & _).
-    apply (dec_enc_track_gen fm l ds Hfm H1 H2 He).
+  - intros l ds Hin He. destruct (Hv' l Hin) as (H1 & _).
+    apply (dec_enc_track_gen fm l ds Hfm H1 He).
   - rewrite Hst. split; [exact Hdec|].
     (* every member track was encoded successfully, so its read-back has the same times *)
     destruct (enc_keyed_shape _ _ _ _ _ _ Hwr) as [_ Hrows].
     unfold tracklist_same. clear Hst Hdec Hwr Hlen Hv. revert Hrows Hv'. generalize (map snd wr) as dss.
     induction x as [|l t IH]; intros dss Hrows Hv'; inversion Hrows as [|? ds ? dss' Hl Ht]; subst; simpl; constructor.
-    + destruct (Hv' l (or_introl eq_refl)) as (H1 & H2 & H3).
-      apply float_times_same; [exact H3|]. apply (dec_enc_track_gen fm l ds Hfm H1 H2 Hl).
+    + destruct (Hv' l (or_introl eq_refl)) as (H1 & H3).
+      apply float_times_same; [exact H3|]. apply (dec_enc_track_gen fm l ds Hfm H1 Hl).
     + apply (IH dss'); [exact Ht|]. intros l' Hl'. apply Hv'. right. exact Hl'.
 Qed.
 
@@ -141,12 +142,12 @@ Proof.
 Qed.
 
 Lemma dec_enc_track_file l f :
-  valid_track l = true -> no_bcast l = true -> times_exact l = true ->
+  valid_track l = true -> times_exact l = true ->
   enc_track_file repo_fmt l = Ok f ->
   exists l', dec_track_file repo_fmt f = Ok l' /\ track_same l l'.
 Proof.
-  intros Hv Hnb Ht H. unfold enc_track_file in H. apply bind_ok in H as (ds & Hds & H). injection H as <-.
-  cbn [dec_track_file]. destruct (dec_enc_track_gen repo_fmt l ds repo_fmt_ok Hv Hnb Hds) as [Hd Hf].
+  intros Hv Ht H. unfold enc_track_file in H. apply bind_ok in H as (ds & Hds & H). injection H as <-.
+  cbn [dec_track_file]. destruct (dec_enc_track_gen repo_fmt l ds repo_fmt_ok Hv Hds) as [Hd Hf].
   exists (rho_track l). split; [exact Hd | exact (float_times_same _ _ Ht Hf)].
 Qed.
 
@@ -181,12 +182,12 @@ Proof.
   exists f. split; [reflexivity | exact (dec_enc_etc x f Hv Hlen E)].
 Qed.
 
-Lemma enc_total_or_err_track l : valid_track l = true -> no_bcast l = true -> times_exact l = true ->
+Lemma enc_total_or_err_track l : valid_track l = true -> times_exact l = true ->
   (exists e, enc_track_file repo_fmt l = Err e) \/
   (exists f l', enc_track_file repo_fmt l = Ok f /\ dec_track_file repo_fmt f = Ok l' /\ track_same l l').
 Proof.
-  intros Hv Hnb Ht. destruct (enc_track_file repo_fmt l) as [f|e] eqn:E; [right|left; exists e; reflexivity].
-  destruct (dec_enc_track_file l f Hv Hnb Ht E) as (l' & H1 & H2). exists f, l'. auto.
+  intros Hv Ht. destruct (enc_track_file repo_fmt l) as [f|e] eqn:E; [right|left; exists e; reflexivity].
+  destruct (dec_enc_track_file l f Hv Ht E) as (l' & H1 & H2). exists f, l'. auto.
 Qed.
 
 Lemma enc_total_or_err_tracklist x : valid_tracklist x = true -> Z.of_nat (List.length x) <= 10 ^ 6 ->
@@ -228,35 +229,38 @@ Definition f_01 : F := 4591870180066957722.    (* 0.1 *)
 Definition f_02 : F := 4596373779694328218.    (* 0.2 *)
 Definition f_03 : F := 4599075939470750515.    (* 0.3 *)
 
-(* DropletTrack([PerturbedDroplet2D([1,2],3,0.5,[0.1,0.3]), PerturbedDroplet2D([1,2],3,0.5,[0.2])], [0,1]) *)
+(* DropletTrack([PerturbedDroplet2D([1,2],3,0.5,[0.1,0.3]), PerturbedDroplet2D([1,2],3,0.5,[0.2])], [0,1]):
+   before the fix f3c9dfd numpy broadcast the single amplitude of the second member; now writing raises *)
 Definition bcast_track : track :=
   [(TInt 0, {| cls := P2D; dpos := [f_1; f_2]; radius := f_3; width := Some f_half; ampl := [f_01; f_03] |});
    (TInt 1, {| cls := P2D; dpos := [f_1; f_2]; radius := f_3; width := Some f_half; ampl := [f_02] |})].
 
-(* a valid track (same class, same dimension, exact times) is written without error and reads back
-   with different amplitudes: numpy broadcasts the single amplitude of the second member to the two
-   modes of the first one *)
-Lemma track_broadcast_witness :
-  valid_track bcast_track = true /\ times_exact bcast_track = true /\
-  exists f l', enc_track_file repo_fmt bcast_track = Ok f /\ dec_track_file repo_fmt f = Ok l' /\
-               ~ track_same bcast_track l'.
+(* a track that is written has members of one layout (dimension, width field, number of amplitudes) *)
+Lemma track_written_uniform l f : enc_track_file repo_fmt l = Ok f ->
+  match l with
+  | [] => True
+  | td0 :: _ => forallb (fun td => layout_eqb (layout (snd td)) (layout (snd td0))) l = true
+  end.
 Proof.
-  split; [vm_compute; reflexivity|]. split; [vm_compute; reflexivity|].
-  eexists. eexists. split; [vm_compute; reflexivity|]. split; [vm_compute; reflexivity|].
-  intros H. inversion H as [|x y l1 l2 _ H2]; subst. inversion H2 as [|x' y' l1' l2' [_ Hs] _]; subst.
-  cbn [snd] in Hs. discriminate.
+  intros H. unfold enc_track_file in H. apply bind_ok in H as (ds & Hds & _).
+  apply (enc_track_uniform repo_fmt l ds); [|exact Hds].
+  exact (ff_guard repo_fmt (fmt_ok_facts repo_fmt repo_fmt_ok)).
 Qed.
+
+Lemma bcast_track_rejected :
+  valid_track bcast_track = true /\ enc_track_file repo_fmt bcast_track = Err EType.
+Proof. split; vm_compute; reflexivity. Qed.
 
 (* an integer time beyond 2^53 is rounded by the f8 time column *)
 Definition big_time_track : track :=
   [(TInt (2 ^ 53 + 1), {| cls := Spherical; dpos := [f_1]; radius := f_1; width := None; ampl := [] |})].
 
 Lemma track_int_time_witness :
-  valid_track big_time_track = true /\ no_bcast big_time_track = true /\
+  valid_track big_time_track = true /\
   exists f l', enc_track_file repo_fmt big_time_track = Ok f /\ dec_track_file repo_fmt f = Ok l' /\
                ~ track_same big_time_track l'.
 Proof.
-  split; [vm_compute; reflexivity|]. split; [vm_compute; reflexivity|].
+  split; [vm_compute; reflexivity|].
   eexists. eexists. split; [vm_compute; reflexivity|]. split; [vm_compute; reflexivity|].
   intros H. inversion H as [|x y l1 l2 [Ht _] _]; subst. vm_compute in Ht. discriminate.
 Qed.
